@@ -376,6 +376,8 @@ func (in *c14sInst) apply(op c14sOp) error {
 		if m.count() > m.low {
 			st.class(c14sTrimClass(m, "trim", x, m.values()), in, x)
 		}
+	}
+	if kind == c14sTrimExplicit || nx > 0 { // a trim ran
 		in.noteClosed(x)
 		in.resolvePruned()
 	}
